@@ -11,6 +11,8 @@ pub struct Task {
     pub real: Option<Box<dyn HashObj>>,
     /// model: bytes absorbed since construction / reset
     pub msg: Vec<u8>,
+    /// model: counter jumps (hook H2) made so far: (bytes absorbed at that moment, blocks the counter was set to)
+    pub jumps: Vec<(usize, u128)>,
     /// model-side history flags of this instance (for signatures and coverage)
     pub cloned: bool,
     pub reused: bool,
@@ -97,6 +99,7 @@ impl Scenario for S4 {
             .set("w_finres", J::U(sw.range(0, 2) as u128))
             .set("w_final", J::U(sw.range(1, 2) as u128))
             .set("w_drop", J::U(sw.range(0, 1) as u128))
+            .set("w_jump", J::U(if mix == "C03" || !cfg!(cryptocorrosion_verif) { 0 } else { sw.chance(1, 3) as u64 * sw.range(1, 2) } as u128))
             .set("big", J::U(sw.chance(1, 12) as u128))
             .set("nops", J::U(sw.range(3, 30) as u128));
         J::obj().set("host", J::U(hosts::pick_level(sw) as u128)).set("tasks", J::A(tasks)).set("swarm", swarm)
@@ -108,7 +111,7 @@ impl Scenario for S4 {
         for t in setup.arr("tasks") {
             let ty = super::hashes::type_index(t.s("type").unwrap_or("Blake256")).unwrap_or(1);
             let real = guarded(|| new_hash(ty)).ok();
-            tasks.push(Task { ty, real, msg: vec![], cloned: false, reused: false, multi_with_fill: false });
+            tasks.push(Task { ty, real, msg: vec![], jumps: vec![], cloned: false, reused: false, multi_with_fill: false });
         }
         World { host, tasks, swarm: setup.get("swarm").cloned().unwrap_or(J::obj()), log: 0, steps: 0, bytes: 0, tlogs: vec![] }
     }
@@ -130,6 +133,7 @@ impl Scenario for S4 {
             ("finres", sw.u_or("w_finres", 1)),
             ("final", sw.u_or("w_final", 1) + if last { 50 } else { 0 }),
             ("drop", sw.u_or("w_drop", 0)),
+            ("jump", sw.u_or("w_jump", 0)),
         ];
         let total: u128 = wts.iter().map(|x| x.1).sum();
         let mut c = r.below(total.max(1) as u64) as u128;
@@ -179,6 +183,10 @@ impl Scenario for S4 {
                 Op::new(t32, kind, &[("len", len as u128), ("dseed", st.data.next() as u128), ("align", st.place.below(64) as u128)])
             }
             "finres" => Op::new(t32, "finres", &[("fixed", r.below(2) as u128)]),
+            "jump" => {
+                let (k, _) = super::s6_counters::pick_k(r, t.ty);
+                Op::new(t32, "jump", &[("blocks", k)])
+            }
             k => Op::new(t32, k, &[]),
         })
     }
@@ -327,8 +335,25 @@ fn panic_verdict(t: &mut Task, extra: &[u8], what: &str, m: String, stats: &mut 
     }
 }
 
+/// the same bytes in as few calls as possible, with the same counter jumps at the same byte positions
+fn oneshot_with_jumps(t: &Task) -> Vec<u8> {
+    if t.jumps.is_empty() {
+        return oneshot(t.ty, &t.msg);
+    }
+    let mut h = new_hash(t.ty);
+    let mut pos = 0;
+    for (at, k) in &t.jumps {
+        h.update(&t.msg[pos..*at]);
+        pos = *at;
+        let (_, buffered) = super::s6_counters::absorb(t.ty, 0, *at);
+        h.set_counter(super::s6_counters::expected_counter(t.ty, *k, buffered));
+    }
+    h.update(&t.msg[pos..]);
+    h.finalize_box()
+}
+
 fn check_digest(t: &Task, got: &[u8], how: &str, stats: &mut Stats) -> Option<Violation> {
-    let want = match guarded(|| oneshot(t.ty, &t.msg)) {
+    let want = match guarded(|| oneshot_with_jumps(t)) {
         Ok(w) => w,
         Err(m) => {
             stats.note("one-shot digest panics (C03/C04-C07 territory, not decided here)");
@@ -340,7 +365,7 @@ fn check_digest(t: &Task, got: &[u8], how: &str, stats: &mut Stats) -> Option<Vi
         return Some(Violation::new(
             &["C08"],
             "H1",
-            format!("digest depends on history:{}:{}:{}", TYPES[t.ty].name, how, flags(t)),
+            format!("digest depends on history:{}:{}:{}{}", TYPES[t.ty].name, how, flags(t), if t.jumps.is_empty() { "" } else { ":near a counter boundary" }),
             format!("{} of {} bytes via {}: incremental {} != one-shot {}", TYPES[t.ty].name, t.msg.len(), how, crate::kit::json::hex(got), crate::kit::json::hex(&want)),
         ));
     }
@@ -410,7 +435,7 @@ fn step_inner(w: &mut World, ti: usize, op: &Op, stats: &mut Stats, rh: &mut u64
                 Err(m) => return Step::Fail(Violation::new(&["C08"], "H0", format!("clone panics:{}", tyname), m)),
             };
             t.cloned = true;
-            let nt = Task { ty: t.ty, real: Some(c), msg: t.msg.clone(), cloned: true, reused: t.reused, multi_with_fill: t.multi_with_fill };
+            let nt = Task { ty: t.ty, real: Some(c), msg: t.msg.clone(), jumps: t.jumps.clone(), cloned: true, reused: t.reused, multi_with_fill: t.multi_with_fill };
             stats.state(&[8, t.ty as u64, fc]);
             w.tasks.push(nt);
             Step::Done
@@ -423,6 +448,7 @@ fn step_inner(w: &mut World, ti: usize, op: &Op, stats: &mut Stats, rh: &mut u64
                 return Step::Fail(Violation::new(&["C08"], "H0", format!("reset panics:{}", tyname), m));
             }
             t.msg.clear();
+            t.jumps.clear();
             t.reused = true;
             t.multi_with_fill = false;
             stats.state(&[9, t.ty as u64, fc]);
@@ -449,6 +475,7 @@ fn step_inner(w: &mut World, ti: usize, op: &Op, stats: &mut Stats, rh: &mut u64
                 stats.hit("probe.digest_checked_on_clone_or_cloned_original");
             }
             t.msg.clear();
+            t.jumps.clear();
             t.reused = true;
             t.multi_with_fill = false;
             stats.state(&[10, t.ty as u64, fc, fixed as u64]);
@@ -478,9 +505,24 @@ fn step_inner(w: &mut World, ti: usize, op: &Op, stats: &mut Stats, rh: &mut u64
             // the task continues with a brand-new instance
             t.real = guarded(|| new_hash(t.ty)).ok();
             t.msg.clear();
+            t.jumps.clear();
             t.cloned = false;
             t.reused = false;
             t.multi_with_fill = false;
+            Step::Done
+        }
+        "jump" => {
+            // hook H2: fast-forward the length counter (the hash's clock) so that chunking/clone/reset invariance
+            // is also exercised next to counter word boundaries; the one-shot oracle makes the same jump
+            let t = &mut w.tasks[ti];
+            let b = TYPES[t.ty].block as u128;
+            let lim = super::s6_counters::max_total_bytes(t.ty) / b;
+            let k = op.get("blocks").min(lim.saturating_sub(8192));
+            stats.hit("op.counter_jump");
+            let (_, buffered) = super::s6_counters::absorb(t.ty, 0, t.msg.len());
+            t.real.as_mut().unwrap().set_counter(super::s6_counters::expected_counter(t.ty, k, buffered));
+            t.jumps.push((t.msg.len(), k));
+            *rh = k as u64;
             Step::Done
         }
         "drop" => {
@@ -488,6 +530,7 @@ fn step_inner(w: &mut World, ti: usize, op: &Op, stats: &mut Stats, rh: &mut u64
             let t = &mut w.tasks[ti];
             t.real = guarded(|| new_hash(t.ty)).ok();
             t.msg.clear();
+            t.jumps.clear();
             t.cloned = false;
             t.reused = false;
             t.multi_with_fill = false;
